@@ -321,6 +321,8 @@ fn shadow_side(v: &View, idx: u32, role: Role, side: Side, sh: &mut Shadow) {
                     Ev::MtuUpdated { mtu, .. } => {
                         mtu_hist.push(*mtu as u64);
                         cwnd_stale = true;
+                        // an MTU change re-initialises the controller (window and state)
+                        last_reduction_ns = None;
                     }
                     Ev::Metrics { path, min_rtt_us, smoothed_us, latest_us, var_us, max_ack_delay_us, pto_count, cwnd, bif: m_bif, .. } => {
                         let r = Rtt {
@@ -412,7 +414,11 @@ fn shadow_side(v: &View, idx: u32, role: Role, side: Side, sh: &mut Shadow) {
                             // its own window function, without any signal)
                             if !bbr && have_metrics && !cwnd_stale && r.cwnd < rtt_prev.cwnd && congestion_signal {
                                 let floor = 2 * 1200u64.max(mtu_hist.last().copied().unwrap_or(1200));
-                                if r.cwnd > floor {
+                                // the multiplicative decrease itself (beta_cubic = 0.7): other
+                                // decreases in the same batch come from the window function
+                                let target = rtt_prev.cwnd * 7 / 10;
+                                let is_md = r.cwnd.abs_diff(target) <= rtt_prev.cwnd / 200 + 2;
+                                if r.cwnd > floor && is_md {
                                     if let Some(t0) = last_reduction_ns {
                                         let gap = e.t_ns - t0;
                                         if gap + 1_000_000 < r.min * 1000 {
